@@ -23,6 +23,14 @@ reg('C14', 'SEQ+ENUM',
     'pure-Python readers from the working tree; canonical state = full attribute and generator-frame state; the stale compiled '
     'cyutil reader artifact cannot be rebuilt offline and is not covered', 'DESIGN.md section 5 C14')
 
+reg('C07', 'SEQ+ENUM',
+    'explicit-state BFS to closure over stream operation histories per (body, Content-Length, server chunking) configuration, invariant + io-semantics oracle on a flat cursor',
+    'For every configuration (bytes sent x Content-Length absent/shorter/exact/longer x wsgi.input kind or ASGI event shape incl. missing keys, empty and '
+    'oversized chunks and a disconnect at every position) the reachable state graph of the real WSGI and ASGI BoundedStream (through Request and directly) '
+    'is explored to closure; on every transition: returned bytes are a prefix of body[:CL], sized reads are bounded, the fake server records that it was '
+    'never asked for bytes beyond CL / never awaited after the last event, eof and tell() agree with the cursor.',
+    'pure-Python streams from the working tree; blocking modelled by WouldBlock; exact io-semantics only for a buffered wsgi.input', 'DESIGN.md section 5 C07')
+
 PENDING = {}
 
 ALL = ['C%02d' % i for i in range(1, 21)]
